@@ -349,6 +349,23 @@ func c20ServeProp(t *testing.T, k *verifkit.Kit) func(c c20Serve) error {
 			if !named {
 				return verifkit.Violf("C20/wrong-error", "Serve returned %q which names none of the errors actually returned (%v)\n%s", serveErr, errs, desc())
 			}
+			// "serving returns that error": the error of the task whose failure came first (it is what cancelled the
+			// others; what they return while stopping is a consequence) - any of them if several failed at that instant
+			var firstErrs []string
+			for _, e := range evlog {
+				if e.What == "run-fail" && e.At == firstFail {
+					firstErrs = append(firstErrs, fmt.Sprintf("task %d failed", e.Task))
+				}
+			}
+			first := false
+			for _, e := range firstErrs {
+				if strings.Contains(serveErr.Error(), e) {
+					first = true
+				}
+			}
+			if !first {
+				return verifkit.Violf("C20/not-the-causing-error", "Serve returned %q; the failure that came first, at %v, was %v\n%s", serveErr, firstFail, firstErrs, desc())
+			}
 		}
 		// 3. cancellation reaches every task once a task failed or a signal arrived
 		cause := time.Duration(-1)
